@@ -385,3 +385,73 @@ fn c02_auth_v4_mac00() {
 fn c02_auth_v6_macfe() {
     auth_lemma(2, 0xfe)
 }
+
+fn eth_events(et: Option<u16>, m: usize, n: usize) {
+    let mut buf: [u8; 14 + 40] = kani::any();
+    match et {
+        Some(t) => {
+            buf[12] = (t >> 8) as u8;
+            buf[13] = t as u8;
+        }
+        None => {
+            let t = (buf[12] as u16) << 8 | buf[13] as u16;
+            kani::assume(t != 0x0806 && t != 0x0800 && t != 0x86dd);
+        }
+    }
+    let eth_req = EthernetPacket::new(&buf[..14 + m]).unwrap();
+    let masscanned = ms_counting([0, 0], any_mac());
+    l4_rec().cfg_len = n;
+    let mut d = [0u8; 6];
+    d.copy_from_slice(&buf[0..6]);
+    let auth: bool = kani::any();
+    unsafe {
+        AUTH_CFG = (auth, d, 0);
+    }
+    let mut ci = ClientInfo::new();
+    let r = reply(&eth_req, &masscanned, &mut ci);
+    assert!(balanced(L_ETH, r.is_some()), "C20: Ethernet layer did not log exactly one recv and one terminal event (send iff a frame is emitted)");
+    let shown = ev(L_ETH).ci_recv.unwrap();
+    assert!(shown.mac.src == Some(eth_req.get_source()) && shown.mac.dst == Some(eth_req.get_destination()), "C20: MAC addresses shown to the logger are not the frame's");
+    if l4_rec().calls == 1 {
+        assert!(l4_rec().seq_at_call > ev(L_ETH).seq_recv && l4_rec().seq_at_call < ev(L_ETH).seq_term, "C20: inner layer not nested inside the Ethernet events");
+    }
+    kani::cover!(r.is_some(), "frame emitted");
+    kani::cover!(r.is_none() && l4_rec().calls == 0, "dropped before layer 3");
+}
+
+//# harness: c20_eth_events_ipv4
+//# props: C20
+//# tier: quick
+//# encodes: layer_2::reply
+//# encodes: logger::MetaLogger::{eth_recv,eth_send,eth_drop}
+//# bounds: 14-byte Ethernet header symbolic, EtherType IPv4, 20 payload bytes; layer-3 reply of 20 bytes or silence; destination authorised or not
+//# stubs: layer_2::arp::repl, layer_3::ipv4::repl, layer_3::ipv6::repl -> contract stubs recording the event sequence number; get_authorized_eth_addr -> arbitrary membership
+//# cover: frame emitted
+//# cover: dropped before layer 3
+#[kani::proof]
+#[kani::unwind(30)]
+#[kani::stub(crate::layer_2::arp::repl, crate::verif_util::l3_arp_stub)]
+#[kani::stub(crate::layer_3::ipv4::repl, crate::verif_util::l3_ipv4_stub)]
+#[kani::stub(crate::layer_3::ipv6::repl, crate::verif_util::l3_ipv6_stub)]
+#[kani::stub(crate::layer_2::get_authorized_eth_addr, auth_stub)]
+fn c20_eth_events_ipv4() {
+    eth_events(Some(0x0800), 20, 20)
+}
+
+//# harness: c20_eth_events_other
+//# props: C20
+//# tier: thorough
+//# encodes: layer_2::reply
+//# bounds: EtherType outside {ARP, IPv4, IPv6}, 4 payload bytes
+//# stubs: as c20_eth_events_ipv4
+//# cover: dropped before layer 3
+#[kani::proof]
+#[kani::unwind(30)]
+#[kani::stub(crate::layer_2::arp::repl, crate::verif_util::l3_arp_stub)]
+#[kani::stub(crate::layer_3::ipv4::repl, crate::verif_util::l3_ipv4_stub)]
+#[kani::stub(crate::layer_3::ipv6::repl, crate::verif_util::l3_ipv6_stub)]
+#[kani::stub(crate::layer_2::get_authorized_eth_addr, auth_stub)]
+fn c20_eth_events_other() {
+    eth_events(None, 4, 8)
+}
+
